@@ -143,6 +143,26 @@ theorem C13_encoding (zf : Nat → Bool) (env env' : Env) (a : Ast)
   unfold expected
   rw [h1, h2]
 
+/-- The clip step (`FormulaBuilder.push_clipper`; body extracted from `Clipper.apply`), every configuration of the
+two optional bounds: it never raises, its result is NaN exactly when its operand is — a missing operand is NOT replaced
+by a bound — and a present operand is clipped (lower bound first). -/
+theorem C13_clip_positions (lo hi : Option Rat) (a : V) : clipVal lo hi a = .ok none ↔ a = none := by
+  rw [clipVal_spec]
+  cases a <;> simp [clipSpec]
+
+theorem C13_clip_value (lo hi : Option Rat) (x : Rat) : clipVal lo hi (some x) = .ok (some (clampQ lo hi x)) := by
+  rw [clipVal_spec]; rfl
+
+/-- A program `<operand program> ; clip(lo, hi)` on one round: the sample is `None` exactly when the operand's value is
+NaN (so a missing input under a clip gives `None`, whatever the bounds), else the clipped value. -/
+theorem C13_clip_step (env : Env) (c : List Step) (lo hi : Option Rat) (v : V) (hc : exec env c [] = .ok [v]) :
+    run (c ++ [.clip lo hi]) env = .ok (clipSpec lo hi v) := by
+  unfold run
+  rw [exec_append, hc]
+  show (exec env [.clip lo hi] [v] >>= _) = _
+  simp only [exec, applyStep, PyF.unStep, clipVal_spec, Except.map, bind, Except.bind]
+  exact congrArg Except.ok (emitValue_id _)
+
 /-! Non-vacuity and the two former defects as concrete instances. -/
 
 -- max with a missing SECOND operand, and a division by zero: `None`, not `1` / not "no sample"
@@ -158,3 +178,9 @@ example : fromString "#1 / #2".toList (fun _ => false) = some [.metric 1 false, 
 
 example : expected (fun n => n == 2) (fun n => if n = 1 then .val 3 else .nan) (.bin .add (.metric 1) (.metric 2)) =
     some 3 := by decide +kernel
+
+-- a missing operand under a clip with a lower bound: `None`, not the bound; a present one is clipped
+example : engineRun [.metric 1 false, .metric 2 false, .clip (some 0) (some 100), .op .add]
+    [(1, fun n => if n = 1 then .val 5 else .nan), (2, fun n => if n = 1 then .val 5 else .val (-3)),
+     (3, fun n => if n = 1 then .val 5 else .val 250)] = [⟨1, none⟩, ⟨2, some 5⟩, ⟨3, some 105⟩] := by
+  decide +kernel
